@@ -16,14 +16,14 @@ CONSTANTS MaxCalls,            \* bound on the history length
           CommitBeforeCheck,   \* negative control switch
           DoubleReport         \* negative control: the failure path notifies the handler twice
 
-VARIABLES proj, os, cfg,       \* contract state (see EmitContract)
+VARIABLES proj, os, cfg, pend, \* contract state (see EmitContract)
           bound,               \* set of bound label ids (1 .. proj.nl)
           ncalls,
           last                 \* what the last call reported: [k, r, hc, th, oi]
 
 C == INSTANCE EmitContract
 
-mvars == <<proj, os, cfg, bound, ncalls, last>>
+mvars == <<proj, os, cfg, pend, bound, ncalls, last>>
 
 Args == {"ok", "badInst", "badLabel", "unboundLabel", "foreignLabel", "badSection", "badAlign", "badSize"}
 Kinds == {"inst", "bind", "align", "embed", "elabel", "section", "newlabel"}
@@ -32,10 +32,11 @@ Handlers == {"none", "rec", "throw"}
 NoLast == [k |-> "none", r |-> 0, hc |-> <<>>, th |-> 0, oi |-> C!OsClear]
 
 Init == /\ \E hk \in Handlers, att \in BOOLEAN :
-             cfg = [arch |-> "x64", em |-> "asm", hk |-> hk, att |-> att]
+             cfg = [arch |-> "x64", em |-> "asm", hk |-> hk, att |-> att, vi |-> TRUE]
         /\ proj = [ss |-> <<0>>, sd |-> <<0>>, nl |-> 1, nf |-> 0, nr |-> 0, na |-> 0,
-                   nn |-> 0, cu |-> 0, cs |-> 0, off |-> 0, nv |-> 0]
+                   nn |-> 0, cu |-> 0, cs |-> 0, off |-> 0, nv |-> 0, nb |-> 0, gf |-> 0, gb |-> 0, gd |-> 0]
         /\ os = C!OsClear
+        /\ pend = 0
         /\ bound = {}
         /\ ncalls = 0
         /\ last = NoLast
@@ -63,7 +64,7 @@ AppendB(p, n) == [p EXCEPT !.ss = <<p.ss[1] + n>>, !.sd = <<Digest(p.sd[1], n)>>
 (* what a successful call does to the holder *)
 Commit(k, a, p) ==
   CASE k = "inst"     -> IF a = "unboundLabel" THEN [AppendB(p, 5) EXCEPT !.nf = p.nf + 1] ELSE AppendB(p, 3)
-    [] k = "bind"     -> [p EXCEPT !.nf = 0, !.sd = <<Digest(p.sd[1], 0)>>]
+    [] k = "bind"     -> [p EXCEPT !.nf = 0, !.sd = <<Digest(p.sd[1], 0)>>, !.nb = p.nb + 1]
     [] k = "align"    -> AppendB(p, (4 - (p.ss[1] % 4)) % 4)
     [] k = "embed"    -> AppendB(p, 2)
     [] k = "elabel"   -> [AppendB(p, 4) EXCEPT !.nr = p.nr + 1,
@@ -83,7 +84,7 @@ HandlerLog(code) == IF cfg.hk = "none" THEN <<>> ELSE IF DoubleReport THEN <<cod
 DoCall(k, a, oi) ==
   /\ ncalls < MaxCalls
   /\ ncalls' = ncalls + 1
-  /\ UNCHANGED cfg
+  /\ UNCHANGED <<cfg, pend>>
   /\ IF Fails(k, a)
        THEN LET code == Code(k, a)
                 hc == IF k = "inst" \/ cfg.att THEN HandlerLog(code) ELSE <<>>
@@ -106,7 +107,7 @@ Next == \E k \in Kinds, a \in Args, oi \in OneShots :
 Spec == Init /\ [][Next]_mvars
 
 (* Refinement: every implementation step is the contract's Call with the reported outcome. *)
-ContractStep == C!Call(last'.k, last'.r, last'.hc, last'.th, last'.oi, proj', os')
+ContractStep == C!Call(last'.k, last'.r, last'.hc, last'.th, last'.oi, proj', os', 0, 0)
 RefinesContract == [][ContractStep]_mvars
 
 (* the headline invariant, stated directly as well *)
